@@ -2,7 +2,7 @@
 import re, os
 from rulelib import *
 from factbase import AnchorError, op_place, op_const
-from props.c24 import skip_class, class_chars
+from props.c24 import skip_class, class_chars, skip_alphabet
 from props.parser_shared import token_legend_pairs
 
 TITLE = "The SWC transform resolves each literal to the artifact the compiler wrote"
@@ -210,7 +210,7 @@ def run(cx):
     # tolerant manual segmentation
     seg = segment(pat)
     cx.extra["plugin_regex"] = pat
-    skip = set(class_chars(skip_class(syn)))
+    skip = set(skip_alphabet(syn))
     ident = ident_class(syn)
     fb = cx.mir("isograph_lang_parser", "swc_isograph_plugin", "artifact_content", "isograph_config")
     kinds = {st: k for k, st in token_legend_pairs(fb)}
